@@ -1,5 +1,6 @@
 import SparkxVerif.Core.Proto
 import SparkxVerif.Core.Lattice
+import SparkxVerif.Gen.Lattice
 
 /-! driver for C17: one scenario per line
 
@@ -23,6 +24,11 @@ import SparkxVerif.Core.Lattice
          `av,a,b;b;…`   a.average(b, …)         -> `new<n>`                        | `err:<kind>`
          `sv,l`         save_to_csv             -> `t<hex>;<hex>;…` (the row of numbers)
          `ld,h;h;…`     load_from_csv of a row  -> `new<n>`                        | `err:<kind>`
+         `rz,l`         reset                   -> `-`                             | `err:<kind>`
+         `at,l`         derived constructor attributes -> `a<cell_volume>;<spacing_x|none>;<sy>;<sz>;<density_x>;<dy>;<dz>`
+  `gseq <TAB> … <TAB> …` is the same protocol executed by the functions GENERATED from the current source
+  (`Gen/Lattice.lean`, tie T) instead of the hand-written model; `sv`, `ld`, `xu` are not translated and stay
+  on the model there.
   NaN is printed `nan` (payload not compared).  `np.linspace` = the table of the node arrays given in the
   lattice specs; `interpn` = the value supplied with the command.
 -/
@@ -88,6 +94,15 @@ def binOp? : String → Option BinOp
   | "add" => some .add | "sub" => some .sub | "mul" => some .mul | "div" => some .div | _ => none
 
 def toNatF (x : Float) : Nat := x.toUInt64.toNat
+
+/-- a number with the sign of zero removed (`abs(-0.0)` is `0.0` in Python, `-0.0` for the order-only `absG`) -/
+def fhex0 (x : Float) : String := if x == 0.0 then fhex 0.0 else fhex x
+
+def showAttrs (cv : Except Err Float) (sp : List (Except Err (Option Float))) (dn : List (Except Err Float)) : String :=
+  let one (r : Except Err Float) : String := match r with | .ok v => fhex0 v | .error e => err e
+  let opt (r : Except Err (Option Float)) : String :=
+    match r with | .ok (some v) => fhex0 v | .ok none => "none" | .error e => err e
+  "a" ++ ";".intercalate ([one cv] ++ sp.map opt ++ dn.map one)
 
 /-- one command: new environment and the answer, `none` = unparsable -/
 def step (tab : LinTab) (env : List L) (c : String) : Option (List L × String) :=
@@ -155,6 +170,18 @@ def step (tab : LinTab) (env : List L) (c : String) : Option (List L × String) 
     pure (env, match lat.interpolateValue (fun _ _ _ _ _ (_ : Unit) => r) x y z () with
       | .ok v => "v" ++ fhex v
       | .error e => err e)
+  | ["rz", l] => do
+    let l ← l.toNat?
+    let lat ← env[l]?
+    pure (env.set l lat.reset, "-")
+  | ["at", l] => do
+    let l ← l.toNat?
+    let lat ← env[l]?
+    pure (env, showAttrs (.ok (cellVolume lat.xmin lat.xmax lat.ymin lat.ymax lat.zmin lat.zmax lat.nx lat.ny lat.nz))
+      [spacingOf (lin lat.xmin lat.xmax lat.nx) lat.nx, spacingOf (lin lat.ymin lat.ymax lat.ny) lat.ny,
+       spacingOf (lin lat.zmin lat.zmax lat.nz) lat.nz]
+      [.ok (densityOf lat.xmin lat.xmax lat.nx), .ok (densityOf lat.ymin lat.ymax lat.ny),
+       .ok (densityOf lat.zmin lat.zmax lat.nz)])
   | ["bo", o, a, b] => do
     let o ← binOp? o; let a ← a.toNat?; let b ← b.toNat?
     let A ← env[a]?; let B ← env[b]?
@@ -179,6 +206,121 @@ def step (tab : LinTab) (env : List L) (c : String) : Option (List L × String) 
     | .error e => some (env, err e)
   | _ => none
 
+
+/-! ### the same protocol on the functions generated from the current source (tie T, executed at Float) -/
+
+open SparkxVerif.Gen in
+/-- one command executed by the GENERATED methods -/
+def gstep (tab : LinTab) (env : List L) (c : String) : Option (List L × String) :=
+  let lin := linOf tab
+  let setRes (l : Nat) (r : Except Err (L × Bool)) : List L × String :=
+    match r with
+    | .ok (l', w) => (env.set l l', if w then "w1" else "w0")
+    | .error e => (env, err e)
+  let idx (r : Except Err Int) : String := match r with | .ok i => s!"i{i}" | .error e => err e
+  match c.splitOn "," with
+  | ["si", l, i, j, k, v] => do
+    let l ← l.toNat?; let i ← i.toInt?; let j ← j.toInt?; let k ← k.toInt?; let v ← fval? v
+    let lat ← env[l]?
+    pure (setRes l (Lattice3D.setValueByIndex lat i j k v))
+  | ["sp", l, x, y, z, v] => do
+    let l ← l.toNat?; let x ← fval? x; let y ← fval? y; let z ← fval? z; let v ← fval? v
+    let lat ← env[l]?
+    pure (setRes l (Lattice3D.setValue lat x y z v))
+  | ["sn", l, x, y, z, v] => do
+    let l ← l.toNat?; let x ← fval? x; let y ← fval? y; let z ← fval? z; let v ← fval? v
+    let lat ← env[l]?
+    pure (setRes l (Lattice3D.setValueNN lat x y z v))
+  | ["rs", l, f] => do
+    let l ← l.toNat?; let f ← fval? f
+    let lat ← env[l]?
+    pure (match Lattice3D.rescale lat f with
+      | .ok l' => (env.set l l', "-")
+      | .error e => (env, err e))
+  | ["rz", l] => do
+    let l ← l.toNat?
+    let lat ← env[l]?
+    pure (match Lattice3D.reset lat with
+      | .ok l' => (env.set l l', "-")
+      | .error e => (env, err e))
+  | ["at", l] => do
+    let l ← l.toNat?
+    let lat ← env[l]?
+    pure (env, showAttrs
+      (Lattice3D.attr_cell_volume_ lin lat.xmin lat.xmax lat.ymin lat.ymax lat.zmin lat.zmax lat.nx lat.ny lat.nz)
+      [Lattice3D.attr_spacing_x_ lin lat.xmin lat.xmax lat.ymin lat.ymax lat.zmin lat.zmax lat.nx lat.ny lat.nz,
+       Lattice3D.attr_spacing_y_ lin lat.xmin lat.xmax lat.ymin lat.ymax lat.zmin lat.zmax lat.nx lat.ny lat.nz,
+       Lattice3D.attr_spacing_z_ lin lat.xmin lat.xmax lat.ymin lat.ymax lat.zmin lat.zmax lat.nx lat.ny lat.nz]
+      [Lattice3D.attr_density_x_ lin lat.xmin lat.xmax lat.ymin lat.ymax lat.zmin lat.zmax lat.nx lat.ny lat.nz,
+       Lattice3D.attr_density_y_ lin lat.xmin lat.xmax lat.ymin lat.ymax lat.zmin lat.zmax lat.nx lat.ny lat.nz,
+       Lattice3D.attr_density_z_ lin lat.xmin lat.xmax lat.ymin lat.ymax lat.zmin lat.zmax lat.nx lat.ny lat.nz])
+  | ["gi", l, i, j, k] => do
+    let l ← l.toNat?; let i ← i.toInt?; let j ← j.toInt?; let k ← k.toInt?
+    let lat ← env[l]?
+    pure (env, showGet (Lattice3D.getValueByIndex lat i j k))
+  | ["gp", l, x, y, z] => do
+    let l ← l.toNat?; let x ← fval? x; let y ← fval? y; let z ← fval? z
+    let lat ← env[l]?
+    pure (env, showGet (Lattice3D.getValue lat x y z))
+  | ["gn", l, x, y, z] => do
+    let l ← l.toNat?; let x ← fval? x; let y ← fval? y; let z ← fval? z
+    let lat ← env[l]?
+    pure (env, showGet (Lattice3D.getValueNN lat x y z))
+  | ["co", l, i, j, k] => do
+    let l ← l.toNat?; let i ← i.toInt?; let j ← j.toInt?; let k ← k.toInt?
+    let lat ← env[l]?
+    pure (env, match Lattice3D.getCoordinates lat i j k with
+      | .ok (x, y, z) => "c" ++ fhexs [x, y, z]
+      | .error e => err e)
+  | ["fc", l, x, y, z] => do
+    let l ← l.toNat?; let x ← fval? x; let y ← fval? y; let z ← fval? z
+    let lat ← env[l]?
+    pure (env, match Lattice3D.findClosestIndices lat x y z with
+      | .ok ((i, j, k), w) => s!"{i};{j};{k};{if w then 1 else 0}"
+      | .error e => err e)
+  | ["xi", l, ax, v] => do
+    let l ← l.toNat?; let v ← fval? v
+    let lat ← env[l]?
+    let xs ← axisOf lat ax
+    pure (env, idx (Lattice3D.getIndex v xs))
+  | ["xn", l, ax, v] => do
+    let l ← l.toNat?; let v ← fval? v
+    let lat ← env[l]?
+    let xs ← axisOf lat ax
+    pure (env, idx (Lattice3D.getIndexNN v xs))
+  | ["iv", l, x, y, z, r] => do
+    let l ← l.toNat?; let x ← fval? x; let y ← fval? y; let z ← fval? z
+    let r : Except Err Float ← if r == "err:value" then some (.error .value) else if r == "err:type" then some (.error .type)
+      else if r == "err:index" then some (.error .index) else (fval? r).map .ok
+    let lat ← env[l]?
+    pure (env, match Lattice3D.interpolateValue (fun _ _ _ _ _ (_ : Unit) => r) lat x y z () with
+      | .ok v => "v" ++ fhex v
+      | .error e => err e)
+  | ["bo", o, a, b] => do
+    let o ← binOp? o; let a ← a.toNat?; let b ← b.toNat?
+    let A ← env[a]?; let B ← env[b]?
+    let r := match o with
+      | .add => Lattice3D.add lin A B | .sub => Lattice3D.sub lin A B
+      | .mul => Lattice3D.mul lin A B | .div => Lattice3D.truediv lin A B
+    pure (match r with
+      | .ok R => (env ++ [R], s!"new{env.length}")
+      | .error e => (env, err e))
+  | ["av", a, bs] => do
+    let a ← a.toNat?; let bs ← natList? bs
+    let A ← env[a]?; let Bs ← bs.mapM (fun b => env[b]?)
+    pure (match Lattice3D.average lin A Bs with
+      | .ok R => (env ++ [R], s!"new{env.length}")
+      | .error e => (env, err e))
+  | _ => step tab env c
+
+def runCmdsWith (stp : LinTab → List L → String → Option (List L × String)) (tab : LinTab) :
+    List L → List String → List String → Option (List L × List String)
+  | env, [], acc => some (env, acc.reverse)
+  | env, c :: cs, acc =>
+    match stp tab env c with
+    | some (env', s) => runCmdsWith stp tab env' cs (s :: acc)
+    | none => none
+
 def runCmds (tab : LinTab) : List L → List String → List String → Option (List L × List String)
   | env, [], acc => some (env, acc.reverse)
   | env, c :: cs, acc =>
@@ -191,6 +333,13 @@ def handle : List String → String
     match (lats.splitOn "|").mapM lat? with
     | some env =>
       match runCmds (linTab env) env (splitList cmds '|') [] with
+      | some (env', res) => s!"ok {"|".intercalate res} {"|".intercalate (env'.map showLat)}"
+      | none => "bad-op"
+    | none => "bad-op"
+  | ["gseq", lats, cmds] =>
+    match (lats.splitOn "|").mapM lat? with
+    | some env =>
+      match runCmdsWith gstep (linTab env) env (splitList cmds '|') [] with
       | some (env', res) => s!"ok {"|".intercalate res} {"|".intercalate (env'.map showLat)}"
       | none => "bad-op"
     | none => "bad-op"
